@@ -25,7 +25,7 @@ def check_tokens(code, v):
             next(it)
         del it
         if len(code) % 2:
-            disturb(grammar(v), case_int(code, v))      # more kinds of unfinished earlier calls (strict raise, aborted parse ...)
+            disturb(grammar(v), case_int(code, v), code)      # more kinds of unfinished earlier calls (strict raise, aborted parse ...)
         toks = list(tokenize(code, version_info=vi))
     except RecursionError:
         raise
